@@ -385,6 +385,14 @@ def r7_symbol_values_stored_verbatim(ctx: Ctx) -> None:
     symbol_values_stored_verbatim(ctx)
 
 
+def r8_names_lex_alike_everywhere(ctx: Ctx) -> None:
+    """`consistently renaming a scope-local name does not change the output`: any name that is an identifier at statement level is one
+    inside operands and expressions too (shared with C16.R5)"""
+    from .c16 import identifier_start_sets
+
+    identifier_start_sets(ctx)
+
+
 def rb_binding_agreement(ctx: Ctx) -> None:
     from ..ownership import binding_agreement
 
@@ -405,4 +413,4 @@ def ru_names_bound(ctx: Ctx) -> None:
     names_rule(ctx)
 
 
-RULES = [r1_generator_pairing, r2_replay_agreement, r3_lookup_chain, r4_export, r5_who_may_write, r6_macro_arguments_in_caller_scope, r7_symbol_values_stored_verbatim, rb_binding_agreement, rm_no_process_lifetime_results, ru_names_bound]
+RULES = [r1_generator_pairing, r2_replay_agreement, r3_lookup_chain, r4_export, r5_who_may_write, r6_macro_arguments_in_caller_scope, r7_symbol_values_stored_verbatim, r8_names_lex_alike_everywhere, rb_binding_agreement, rm_no_process_lifetime_results, ru_names_bound]
